@@ -152,7 +152,7 @@ TEXT = {
         note=COMMON_NOTE + "Modelled: ignore-file discovery results as provenance classes; clap and normalise() run for real."),
     "C08": dict(
         design_ref="§7 C08",
-        technique="Lean 4 invariant proofs on the job-task model (after Stop nothing runs and no timer is armed, so the trailing Delete ends the task with nothing live; after GracefulStop no new process starts) composed per job by the check driver; differential execution of a real Watchexec instance (simulated children, virtual time) and a real-process stream",
+        technique="Lean 4 invariant proofs on the job-task model (after Stop nothing runs and no timer is armed, so the trailing Delete ends the task with nothing live; after GracefulStop no new process starts) lifted to any number of jobs in any states (c08_main_bound: product of per-job runs read at one instant, bound = the largest per-job deadline); differential execution of a real Watchexec instance (simulated children, virtual time) and a real-process stream",
         text=("Theorems: c08_delete_after_stop (every configuration: whenever recv is about to return a Delete queued behind a Stop, nothing is running, nothing is un-reaped, and handling "
               "it ends the task), c08_delete_idle (during a quit the restart slot is empty and no process is started), timer_fires / expiry_kills / graceful_stop_step (kill exactly at "
               "the grace deadline). The worker's quit branch is composed from per-job model runs by the driver: the real main task must finish exactly when the slowest job's model run "
@@ -160,7 +160,7 @@ TEXT = {
               "GracefulStop; Stop + Delete the job task is gone whenever the virtual clock exceeds the deadline = expiry of the timer armed at the quit + grace periods still queued + the "
               "quit's own; the clock passes only while the task is idle and never beyond an armed timer — SimInv3), with idle_timer (nothing but an unexpired grace timer holds a control back). "
               "CLI: first_interrupt_quits_gracefully / other_signals_pass / interrupts_escalate (config.rs' decision on INT / TERM), run against the real handler by the cli-quit stream and end to "
-              "end by e2e-cli (real signals to the built binary). Partial: composition over several jobs is done by the driver; process-group members surviving "
+              "end by e2e-cli (real signals to the built binary). The composition over the job map is a theorem too: c08_main_bound (any number of jobs, each in any state incl. already ended ones — dead_stays_dead —, each with its own continuation: at any common instant later than the LARGEST per-job bound no job task is alive, i.e. both join_all calls of the quit branch have returned). Partial: process-group members surviving "
               "graceful quit / abort of a grouped command are recorded known findings (F15a, F15b), observed by the real-process stream on every run."),
         note=COMMON_NOTE + "Modelled: tokio mpsc/select!/paused clock, process-wrap child (scripted child through the public spawn hook), SeqCst reading of the Relaxed atomics."),
     "C05": dict(
